@@ -186,6 +186,8 @@ def run(ctx):
         specs.append(builder.gen_wildcard_case(ctx.rng('wildcard', i)))
     for i in range(ctx.n(24, 240)):
         specs.append(builder.gen_rootref_case(ctx.rng('root-ref', i)))
+    for i in range(ctx.n(16, 160)):
+        specs.append(builder.gen_exclusion_case(ctx.rng('exclusion', i)))
     reqs = []
     for i, spec in enumerate(specs):
         b = pl.Built(root / f'c{i}', spec['module'], spec)
